@@ -33,6 +33,7 @@ fn subsets(phases: u8, n_inst: u8) -> Vec<FamParams> {
             phases,
             n_inst,
             rows: 1 + (m % 3) as u8,
+            fx_tweak: 0,
         });
     }
     v
